@@ -44,6 +44,13 @@ FILES = [
     "splink/internals/m_from_labels.py",
     "splink/internals/m_u_records_to_parameters.py",
     "splink/internals/accuracy.py",
+    "splink/internals/linker_components/table_management.py",
+    "splink/internals/linker_components/misc.py",
+    "splink/internals/linker_components/visualisations.py",
+    "splink/internals/clustering.py",
+    "splink/internals/unlinkables.py",
+    "splink/internals/match_weights_histogram.py",
+    "splink/internals/labelling_tool.py",
 ]
 
 # public operations: name -> (class, method)
@@ -63,11 +70,35 @@ OPS = {
     "accuracy_analysis_from_labels_table": ("LinkerEvalution", "accuracy_analysis_from_labels_table"),
     "prediction_errors_from_labels_column": ("LinkerEvalution", "prediction_errors_from_labels_column"),
     "prediction_errors_from_labels_table": ("LinkerEvalution", "prediction_errors_from_labels_table"),
+    # second wave: table management, remaining evaluation / clustering, misc, visualisation data
+    "compute_tf_table": ("LinkerTableManagement", "compute_tf_table"),
+    "register_term_frequency_lookup": ("LinkerTableManagement", "register_term_frequency_lookup"),
+    "register_table_input_nodes_concat_with_tf": ("LinkerTableManagement", "register_table_input_nodes_concat_with_tf"),
+    "register_table_predict": ("LinkerTableManagement", "register_table_predict"),
+    "register_labels_table": ("LinkerTableManagement", "register_labels_table"),
+    "register_table": ("LinkerTableManagement", "register_table"),
+    "invalidate_cache": ("LinkerTableManagement", "invalidate_cache"),
+    "delete_tables_created_by_splink_from_db": ("LinkerTableManagement", "delete_tables_created_by_splink_from_db"),
+    "unlinkables_chart": ("LinkerEvalution", "unlinkables_chart"),
+    "labelling_tool_for_specific_record": ("LinkerEvalution", "labelling_tool_for_specific_record"),
+    "compute_graph_metrics": ("LinkerClustering", "compute_graph_metrics"),
+    "cluster_pairwise_predictions_at_multiple_thresholds": (None, "cluster_pairwise_predictions_at_multiple_thresholds"),
+    "save_model_to_json": ("LinkerMisc", "save_model_to_json"),
+    "query_sql": ("LinkerMisc", "query_sql"),
+    "match_weights_histogram": ("LinkerVisualisations", "match_weights_histogram"),
+    "comparison_viewer_dashboard": ("LinkerVisualisations", "comparison_viewer_dashboard"),
+    "cluster_studio_dashboard": ("LinkerVisualisations", "cluster_studio_dashboard"),
+    "waterfall_chart": ("LinkerVisualisations", "waterfall_chart"),
+    "parameter_estimate_comparisons_chart": ("LinkerVisualisations", "parameter_estimate_comparisons_chart"),
+    "tf_adjustment_chart": ("LinkerVisualisations", "tf_adjustment_chart"),
+    "match_weights_chart": ("LinkerVisualisations", "match_weights_chart"),
+    "m_u_parameters_chart": ("LinkerVisualisations", "m_u_parameters_chart"),
 }
 
 COMPONENTS = {"training", "inference", "clustering", "evaluation", "misc", "table_management", "visualisations"}
 COMPONENT_OF_CLASS = {"LinkerTraining": "training", "LinkerInference": "inference", "LinkerClustering": "clustering",
-                      "LinkerEvalution": "evaluation"}
+                      "LinkerEvalution": "evaluation", "LinkerTableManagement": "table_management", "LinkerMisc": "misc",
+                      "LinkerVisualisations": "visualisations"}
 
 # callees whose bodies are inlined (simple name -> (class or None, name)); methods of the linker
 # and of the EM session are resolved on the receiver
@@ -83,6 +114,9 @@ INLINE_FUNCS = {
     "prediction_errors_from_label_column": (None, "prediction_errors_from_label_column"),
     "prediction_errors_from_labels_table": (None, "prediction_errors_from_labels_table"),
     "predictions_from_sample_of_pairwise_labels_sql": (None, "predictions_from_sample_of_pairwise_labels_sql"),
+    "unlinkables_data": (None, "unlinkables_data"),
+    "histogram_data": (None, "histogram_data"),
+    "generate_labelling_tool_comparisons": (None, "generate_labelling_tool_comparisons"),
 }
 LINKER_INLINE_METHODS = {
     "_populate_m_u_from_trained_values", "_populate_probability_two_random_records_match_from_trained_values",
@@ -106,6 +140,11 @@ SQL_NAMES = {
     "block_from_labels", "_join_new_table_to_df_concat_with_tf_sql", "table_exists_in_database",
     "delete_table_from_database", "concat_table_column_names", "_table_to_splink_dataframe",
     "compute_tf_table", "validate", "enqueue_df_concat", "enqueue_df_concat_with_tf",
+    # helpers handed the linker that run SQL of their own (not inlined)
+    "compute_edge_metrics", "tf_adjustment_chart", "render_labelling_tool_html", "render_splink_cluster_studio_html",
+    "delete_tables_created_by_splink_from_db", "cluster_pairwise_predictions_at_threshold",
+    "_calculate_stable_clusters_at_new_threshold", "_generate_detailed_cluster_comparison_sql",
+    "_generate_cluster_summary_stats_sql", "find_matches_to_new_records",
 }
 SQL_ATTRS = {"columns", "columns_escaped"}
 
@@ -135,6 +174,11 @@ PURE_NAMES = {
     "threshold_selection_tool", "accuracy_chart", "roc_chart", "precision_recall_chart",
     "_node_degree_centralisation_sql", "_size_density_centralisation_sql", "copy_", "lower_id_to_left_hand_side",
     "_composite_unique_id_from_edges_sql", "GraphMetricsResults", "duckdb_chunk_sql",
+    # second wave
+    "term_frequencies_for_single_column_sql", "comparison_vector_distribution_sql", "comparison_viewer_table_sqls",
+    "render_splink_comparison_viewer_html", "_as_completed_dict", "as_dict", "waterfall_chart", "unlinkables_chart",
+    "match_weights_histogram", "parameter_estimate_comparisons", "match_weights_chart", "m_u_parameters_chart",
+    "_bins", "_hist_sql", "isfile", "open", "dump", "dumps", "write", "ensure_is_list", "Template", "read_resource",
 }
 # accessors that return a part of their receiver
 SUBOBJECT = {
@@ -144,11 +188,14 @@ SUBOBJECT = {
 }
 ALIASING_BUILTINS = {"list", "sorted", "enumerate", "zip", "filter", "tuple", "set", "reversed", "copy"}
 MUTATORS = {"append", "extend", "pop", "remove", "clear", "insert", "update", "sort", "reverse", "add", "discard",
-            "add_preceding_rules", "_add_trained_m_probability", "_add_trained_u_probability", "setdefault"}
-NOT_MODEL_STATE = {"_intermediate_table_cache", "_db_api", "_input_tables_dict", "_sql_dialect", "_infinity_expression"}
+            "add_preceding_rules", "_add_trained_m_probability", "_add_trained_u_probability", "setdefault",
+            "invalidate_cache"}
+# not model state: the db api, the input tables, and the cache uid (a salt for physical table names; no result
+# depends on it).  Writes to the table cache made by the operation's own code are FCache.
+NOT_MODEL_STATE = {"_db_api", "_input_tables_dict", "_sql_dialect", "_infinity_expression", "_cache_uid"}
 
 FIELDS = ["FCoreModel", "FComparisons", "FPrior", "FLevelMU", "FLevelTrained", "FLevelOther", "FBlockingRules",
-          "FLinkType", "FRetainMatching", "FRetainIntermediate", "FSessions", "FOther"]
+          "FLinkType", "FRetainMatching", "FRetainIntermediate", "FSessions", "FOther", "FCache"]
 RESTORABLE = {"FCoreModel", "FComparisons", "FPrior", "FBlockingRules", "FLinkType", "FRetainMatching", "FRetainIntermediate"}
 
 
@@ -197,6 +244,8 @@ def classify(path: tuple):
         return None
     if path[0] == "_em_training_sessions":
         return "FSessions"
+    if path[0] == "_intermediate_table_cache":
+        return "FCache"
     if path[0] != "_settings_obj":
         return "FOther"
     p = path[1:]
@@ -421,12 +470,12 @@ class Translator:
         self.noid = 0
         self.chain: tuple = ()
         self.stack: list = []
-        comp = COMPONENT_OF_CLASS[cls]
-        selfv = Ref("vis", (comp,))
         fn = self.ix.defs[key]
-        env = {"self": selfv}
-        for a in fn.args.args[1:] + fn.args.kwonlyargs:
-            env[a.arg] = OTHER
+        env = {}
+        if cls is not None:
+            env["self"] = Ref("vis", (COMPONENT_OF_CLASS[cls],))
+        for a in fn.args.args + fn.args.kwonlyargs:
+            env.setdefault(a.arg, OTHER)
         prog, _ret, _term = self.run_function(key, env)
         self.tr.prog = prog
         return self.tr
@@ -628,6 +677,17 @@ class Translator:
                         self.mut(bv.root, bv.path, None)
             out, self.out = self.out, []
             return seq(out), False
+        if isinstance(s, ast.With):
+            self.out = []
+            for it in s.items:
+                self.ev(it.context_expr)
+                if it.optional_vars is not None:
+                    self.bind_target(it.optional_vars, OTHER)
+            pre, self.out = self.out, []
+            body, term = self.block(s.body)
+            if has_effect(seq(pre)) or has_effect(body) or term:
+                raise Untranslatable(f"with-block around effects at {self.cur_fkey}:{line}")
+            return ("Skip",), False
         if isinstance(s, ast.Assert):
             _v, out = self.emit_expr(s.test)
             if out:
@@ -919,7 +979,8 @@ class Translator:
         if isinstance(rv, Ref) and len(rv.path) == 1 and rv.path[0] in COMPONENTS:
             ckey = next(((c, name) for c, comp in COMPONENT_OF_CLASS.items()
                          if comp == rv.path[0] and (c, name) in self.ix.defs), None)
-            if ckey is not None and name.startswith("_") and name not in SQL_NAMES:
+            # on the linker itself every component method is followed; on a private copy only helpers
+            if ckey is not None and (rv.root == "vis" or (name.startswith("_") and name not in SQL_NAMES)):
                 return self.inline(ckey, rv, node, argvals, kwvals)
         if isinstance(rv, Ref) and rv.path == () and name in LINKER_INLINE_METHODS and ("Linker", name) in self.ix.defs:
             return self.inline(("Linker", name), rv, node, argvals, kwvals)
